@@ -44,7 +44,8 @@ func runC17Two(c *Ctx) {
 		order := []string{"12", "21"}[r.Intn(2)]
 		// every fourth case: phase two of the first branch arrives WHILE the second branch (on the same pooled
 		// connection) is between XA START and XA END — its business statement is held up by a slow server
-		during := i%4 == 3
+		// (every eighth case: the same on ONE pinned connection, which the pool cannot keep out of the way of phase two)
+		during := i%4 == 3 || i%8 == 6
 		if !c.Want(cid) {
 			continue
 		}
